@@ -39,6 +39,7 @@ def run(prog: Program, rep: Report, tier: str):
     rule_merge_transforms(prog, rep, "C03.merge")
     rule_factories(prog, rep)
     rule_flow_bijections(prog, rep, "C03")
+    rule_numpyro(prog, rep)
     if tier == "thorough":
         from ..audit import audit_generic
         audit_generic(prog, rep, "C03")
@@ -128,3 +129,71 @@ def rule_flow_bijections(prog, rep, prefix):
     cs = [prog.cls(q) for q in FLOW_WRAPPERS]
     c01.rule_value(prog, rep, cs, R=f"{prefix}.flow-value", minimum=6)
     c01.rule_mirror(prog, rep, cs, RM=f"{prefix}.flow-mirror", RD=f"{prefix}.flow-direction", minimum=6)
+
+
+def rule_numpyro(prog, rep):
+    """experimental/numpyro.py: _BetterTransformedDistribution.log_prob - in the flowjax branch of the loop the
+    inverse value and the log-det come from ONE call on the inverted bijection and enter with the right sign."""
+    import ast
+    from .loops import ref_summary, summarise
+    m = prog.modules.get("flowjax.experimental.numpyro")
+    rep.rule("C03.numpyro", "numpyro wrapper log_prob: for a flowjax transform (no intermediates) x and the log-det come "
+                            "from one call_with_intermediates on Invert(transform.bijection) with the transform's "
+                            "condition; log_prob accumulates MINUS (minus that log-det) summed over the event "
+                            "dimensions, y advances to x, and the base log-prob is added at the end", minimum=3)
+    if m is None or "_BetterTransformedDistribution" not in m.classes:
+        rep.undecided("C03.numpyro", "-", "numpyro", "wrapper class vanished")
+        return
+    c = m.classes["_BetterTransformedDistribution"]
+    fn = c.methods.get("log_prob")
+    site = f"{m.relpath}:{fn.lineno}"
+    loops = [s for s in fn.body if isinstance(s, ast.For)]
+    if len(loops) != 1:
+        rep.undecided("C03.numpyro", site, "log_prob:loop", "expected one loop over the transforms")
+        return
+    loop = loops[0]
+    ins = ["log_prob", "y", "event_dim", "transform", "i", "intermediates", "self"]
+    outs = ["log_prob", "y", "event_dim"]
+    got, _ = summarise(prog, m, loop.body, ins, outs, None)
+    ref = ("inv_transform = _BijectionToNumpyro(Invert(transform.bijection), transform.condition, "
+           "domain=transform.inv.domain, codomain=transform.inv.codomain)\n"
+           "x, ld = inv_transform.call_with_intermediates(y)\n"
+           "batch_ndim = event_dim - transform.codomain.event_dim\n"
+           "log_prob = log_prob + sum_rightmost(ld, batch_ndim)\n"
+           "event_dim = transform.domain.event_dim + batch_ndim\n"
+           "y = x\n")
+    want, _ = ref_summary(prog, m, ref, ins, outs, None)
+    T, INTER = ("sym", "TRANSFORM"), ("sym", "INTERMEDIATES")
+    test = ("and", (("call", ("ext", "builtins.isinstance"), (T, ("ext", "flowjax.experimental.numpyro._BijectionToNumpyro")), ()),
+                    ("cmp", "is", INTER, C(None))))
+    from ..terms import same, subst
+    from ..eqterms import equal, explain
+
+    SR = ("ext", "numpyro.distributions.util.sum_rightmost")
+    from ..terms import is_const, mk_mul
+
+    def linear(t):
+        """sum_rightmost(c * a, n) == c * sum_rightmost(a, n) (a sum over trailing axes is linear)."""
+        def rw(s2):
+            if s2[0] == "call" and s2[1] == SR and s2[2] and s2[2][0][0] == "mul":
+                cs = [x for x in s2[2][0][1] if is_const(x)]
+                rest = [x for x in s2[2][0][1] if not is_const(x)]
+                if cs and rest:
+                    inner = rest[0] if len(rest) == 1 else ("mul", tuple(rest))
+                    return mk_mul(tuple(cs) + (("call", SR, (inner,) + s2[2][1:], s2[3]),))
+            return None
+        return subst(t, rw)
+
+    def flow_branch(t):
+        return linear(subst(t, lambda s: C(True) if same(s, test) else None))
+    for n in outs:
+        g = flow_branch(got[n])
+        if has_unknown(g):
+            rep.undecided("C03.numpyro", site, f"log_prob:{n}", f"unmodelled: {find_unknown(g)}")
+            continue
+        want[n] = linear(want[n])
+        if equal(g, want[n]):
+            rep.holds("C03.numpyro", site, f"_BetterTransformedDistribution.log_prob:{n}", show(g, 160))
+        else:
+            rep.violated("C03.numpyro", site, f"_BetterTransformedDistribution.log_prob:{n}",
+                         f"flowjax branch of the loop gives {n} = {show(g, 200)}; expected {show(want[n], 200)} ({explain(g, want[n])})")
